@@ -120,8 +120,10 @@ def history_dependent(cfg):
 
 def tie_upstream(cfg, *sessions):
     """A numeric difference between twins is inconclusive (not a violation) only when the model is
-    history dependent AND an exact tie exists somewhere in one of the lattices: a tie broken in another
-    order legitimately changes later penalties / accumulated distances."""
+    history dependent AND, in one of the lattices, two candidates for the SAME lattice entry were
+    exactly equally probable (R-audit over the recorded losing predecessors): a tie broken in another
+    arrival order legitimately changes later penalties / accumulated distances."""
     if not history_dependent(cfg):
         return False
-    return any(s.matcher is not None and has_exact_tie(s.matcher) for s in sessions)
+    from .oracles_a import same_key_tie
+    return any(s.matcher is not None and same_key_tie(s.doc, s.matcher) for s in sessions)
